@@ -101,7 +101,11 @@ for _c in ["P256", "P384", "P521", "Secp256k1"]:
     item("ecdsaPadLen" + _c, "src/crypto/ecdsa.rs",
          r"fn try_from_mpi.*?EcdsaPublicParams::%s \{ \.\. \} => \{\s*let raw = crate::types::pad_key::<(\d+)>" % _c,
          "ecdsa::SecretKey::try_from_mpi(%s): pad_key size" % _c)
-item("c25519PadLen", "src/crypto/ecdh.rs", r"pad_key::<(\d+)>\(&rev\)", "Curve25519Legacy::try_from_bytes_rev pad size")
+item("c25519PadLen", "src/crypto/ecdh.rs", r"pub fn try_from_bytes_rev\(bytes: &\[u8\]\) -> Result<Self> \{.*?pad_key::<(\d+)>\((?:&rev|bytes)\)", "Curve25519Legacy::try_from_bytes_rev pad size")
+flag("fixD8fC25519Import", "src/crypto/ecdh.rs", r"pub fn try_from_bytes_rev\(bytes: &\[u8\]\) -> Result<Self> \{[^}]*?let mut secret_raw = pad_key::<\d+>\(bytes\)\?;\s*secret_raw\.reverse\(\);",
+     "D8f repaired (import): the big-endian MPI value is padded to 32 octets before it is reversed")
+flag("fixD8fC25519Export", "src/crypto/ecdh.rs", r"Self::Curve25519Legacy\(key\) => \{\s*let bytes = key\.to_bytes_rev\(\);.*?Mpi::from_slice\(&bytes\)\s*\}",
+     "D8f repaired (export): the reversed scalar is written as an MPI without its leading zero octets")
 
 # ---- native points with the 0x40 prefix --------------------------------------------------------
 EL = "src/types/params/public/eddsa_legacy.rs"
